@@ -236,6 +236,8 @@ class Comms:
         comms_obj = self.getCom(name)
         if comms_obj is not None:
             rx_data = comms_obj.getData()
+            if rx_data is None:
+                return None
             if name in self.forwarding:
                 for destination in self.forwarding[name]:
                     destination.sendData(rx_data)
